@@ -5,6 +5,7 @@
   The same definitions run at `FB` in the correspondence check (`vf/props/c04.py`).
 -/
 import QExPy.Model.Corr
+import QExPy.Lemmas.Corr
 import QExPy.Real
 import QExPy.Props.C10
 
@@ -34,7 +35,7 @@ theorem C04_key_unordered (a b c d : Nat) :
   by_cases h : a ≤ b <;> by_cases h' : c ≤ d <;> simp [h, h', Prod.ext_iff] <;> omega
 
 theorem outOfRange_iff (c : ℝ) : outOfRange c = true ↔ 1 < |c| := by
-  unfold outOfRange Corr.one
+  rw [outOfRange_unfold]; unfold Corr.one
   simp only [num_lt, num_neg, num_ofNat, Nat.cast_one, Bool.or_eq_true, decide_eq_true_eq]
   rw [lt_abs]
   constructor
@@ -68,7 +69,7 @@ theorem inv_write (s : State ℝ) (a b : Nat) (corr cov sa sb : ℝ) (hs : Inv s
 
 theorem inv_setMeasured (s : State ℝ) (w : Which) (a b : Nat) (v : Option ℝ) (hs : Inv s) :
     Inv (setMeasured s w a b v).1 := by
-  unfold setMeasured
+  rw [setMeasured_unfold]
   dsimp only
   split; · exact hs
   split; · exact hs
@@ -164,7 +165,7 @@ theorem C04_inv_all (qs : List (Qty ℝ)) (ops : List (Op ℝ)) : Inv (exec ⟨q
 theorem setMeasured_reject (s : State ℝ) (w : Which) (a b : Nat) (v : Option ℝ)
     (h : (setMeasured s w a b v).2 = .reject) : (setMeasured s w a b v).1 = s := by
   revert h
-  unfold setMeasured
+  rw [setMeasured_unfold]
   dsimp only
   split; · intro _; rfl
   split; · intro _; rfl
@@ -248,7 +249,7 @@ theorem C04_symmetric_get (s : State ℝ) (w : Which) (a b : Nat) :
   dsimp only
   by_cases ha : (qty s a).kind.isEV <;> by_cases hb : (qty s b).kind.isEV <;> simp [ha, hb]
   by_cases ma : (qty s a).kind.measured <;> by_cases mb : (qty s b).kind.measured <;> simp [ma, mb]
-  unfold getMeasured
+  simp only [getMeasured_unfold]
   simp only [ha, hb, ma, mb, Bool.not_true, Bool.false_eq_true, if_false]
   by_cases za : (qty s a).std = 0 <;> by_cases zb : (qty s b).std = 0 <;> simp [za, zb]
   by_cases hab : a = b
@@ -294,7 +295,7 @@ theorem C04_symmetric_set (s : State ℝ) (w : Which) (a b : Nat) (x : ℝ)
     cases h : (qty s a).kind <;> simp_all [Kind.measured, Kind.isEV]
   have eb : (qty s b).kind.isEV = true := by
     cases h : (qty s b).kind <;> simp_all [Kind.measured, Kind.isEV]
-  unfold setMeasured
+  simp only [setMeasured_unfold]
   simp only [ha, hb, ea, eb, Bool.not_true, Bool.false_eq_true, if_false]
   by_cases za : (qty s a).std = 0 <;> by_cases zb : (qty s b).std = 0 <;> simp [za, zb]
   cases w with
@@ -376,7 +377,7 @@ theorem C04_isolated (s : State ℝ) (a b : Nat) (c v sa sb : ℝ) (k : Nat × N
 
 theorem setMeasured_qs (s : State ℝ) (w : Which) (a b : Nat) (v : Option ℝ) :
     (setMeasured s w a b v).1.qs = s.qs := by
-  unfold setMeasured
+  rw [setMeasured_unfold]
   dsimp only
   split; · rfl
   split; · rfl
@@ -388,7 +389,7 @@ theorem setMeasured_qs (s : State ℝ) (w : Which) (a b : Nat) (v : Option ℝ) 
 
 theorem setMeasured_lookup (s : State ℝ) (w : Which) (a b : Nat) (v : Option ℝ) (k : Nat × Nat)
     (hk : key a b ≠ k) : lookup k (setMeasured s w a b v).1.store = lookup k s.store := by
-  unfold setMeasured
+  rw [setMeasured_unfold]
   dsimp only
   split; · rfl
   split; · rfl
@@ -426,7 +427,7 @@ theorem get_congr (s s' : State ℝ) (w : Which) (f : Form) (c d : Nat) (hq : s'
     (hl : lookup (key c d) s'.store = lookup (key c d) s.store) :
     get s' w f c d = get s w f c d := by
   have hqty : ∀ i, qty s' i = qty s i := by intro i; unfold qty; rw [hq]
-  cases f <;> simp only [Corr.get, getFn, getMeth, getMeasured, hqty, hl]
+  cases f <;> simp only [Corr.get, getFn, getMeth, getMeasured_unfold, hqty, hl]
 
 /-- **C04 (isolated, API level).** Whatever a request on the pair (a, b) does — accepted or
     rejected, any form, explicit or inferred — every read of any *other* pair (c, d), in either
@@ -451,7 +452,7 @@ theorem C04_refines_get (s : State ℝ) (w : Which) (f : Form) (a b : Nat) (hab 
     cases h : (qty s b).kind <;> simp_all [Kind.measured, Kind.isEV]
   have hm : getMeasured s w a b = .num (match w with | .corr => r.corr | .cov => r.cov) := by
     unfold absStore at hr
-    unfold getMeasured
+    rw [getMeasured_unfold]
     cases w <;> simp [eb, hb, za, zb, hab, hr]
   cases f with
   | fn => show getFn s w a b = _; unfold getFn; simp [ea, eb, ha, hb, hm]
@@ -466,7 +467,7 @@ theorem C04_unrecorded_zero (s : State ℝ) (w : Which) (f : Form) (a b : Nat) (
   have eb : (qty s b).kind.isEV = true := by
     cases h : (qty s b).kind <;> simp_all [Kind.measured, Kind.isEV]
   have hm : getMeasured s w a b = .num 0 := by
-    unfold getMeasured Corr.zero
+    rw [getMeasured_unfold]; unfold Corr.zero
     simp only [ea, eb, ha, hb, hab, hn, Bool.not_true, Bool.false_eq_true, if_false, num_ofNat,
       Nat.cast_zero]
     split <;> rfl
@@ -487,7 +488,7 @@ theorem C04_self (s : State ℝ) (f : Form) (a : Nat) (ha : (qty s a).kind.measu
   have ea : (qty s a).kind.isEV = true := by
     cases h : (qty s a).kind <;> simp_all [Kind.measured, Kind.isEV]
   have hm : getMeasured s .corr a a = .num 1 ∧ getMeasured s .cov a a = .num ((qty s a).std ^ 2) := by
-    unfold getMeasured Corr.one Num.sq
+    simp only [getMeasured_unfold]; unfold Corr.one Num.sq
     simp [ea, ha, za, sq]
   cases f with
   | fn =>
@@ -518,7 +519,7 @@ theorem C04_set_records (s : State ℝ) (w : Which) (f f' : Form) (a b : Nat) (x
   have eb : (qty s b).kind.isEV = true := by
     cases h : (qty s b).kind <;> simp_all [Kind.measured, Kind.isEV]
   -- the request passed every check
-  unfold setMeasured at hok hs'
+  rw [setMeasured_unfold] at hok hs'
   simp only [ha, hb, ea, eb, Bool.not_true, Bool.false_eq_true, if_false] at hok hs'
   by_cases hz : (Num.isZero (qty s a).std || Num.isZero (qty s b).std) = true
   · rw [if_pos hz] at hok; cases hok
@@ -593,7 +594,7 @@ theorem set_cases (s : State ℝ) (w : Which) (f : Form) (a b : Nat) (v : Option
 
 theorem setMeasured_zero (s : State ℝ) (w : Which) (a b : Nat) (v : Option ℝ)
     (hz : (qty s a).std = 0 ∨ (qty s b).std = 0) : (setMeasured s w a b v).2 = .reject := by
-  unfold setMeasured
+  rw [setMeasured_unfold]
   dsimp only
   split; · rfl
   split; · rfl
@@ -640,7 +641,7 @@ theorem C04_reject_corr_out_of_range (s : State ℝ) (f : Form) (a b : Nat) (x :
       | meth => exact hm
     rcases hv with hv | hv
     · rw [hv]
-      unfold setMeasured
+      rw [setMeasured_unfold]
       dsimp only
       split; · rfl
       split; · rfl
@@ -654,7 +655,7 @@ theorem C04_reject_cov_out_of_range (s : State ℝ) (f : Form) (a b : Nat) (x : 
     (hx : 1 < |x / ((qty s a).std * (qty s b).std)|) :
     (step s (.set .cov f a b (some x))).2 = .reject := by
   have hm : (setMeasured s .cov a b (some x)).2 = .reject := by
-    unfold setMeasured
+    rw [setMeasured_unfold]
     dsimp only
     split; · rfl
     split; · rfl
@@ -687,7 +688,7 @@ theorem C04_reject_non_measurement (s : State ℝ) (w : Which) (f : Form) (a b :
     (step s (.set w f a b v)).2 = .reject := by
   have hmeas : ∀ v', (qty s b).kind.measured = false → (setMeasured s w a b v').2 = .reject := by
     intro v' hb
-    unfold setMeasured
+    rw [setMeasured_unfold]
     dsimp only
     split; · rfl
     rw [if_pos (by simp [hb])]
@@ -720,7 +721,7 @@ theorem C04_reject_no_number (s : State ℝ) (w : Which) (f : Form) (a b : Nat)
          (qty s b).plain = false) :
     (step s (.set w f a b none)).2 = .reject := by
   have hnone : (setMeasured s w a b none).2 = .reject := by
-    unfold setMeasured
+    rw [setMeasured_unfold]
     dsimp only
     split; · rfl
     split; · rfl
@@ -736,7 +737,7 @@ theorem C04_reject_no_number (s : State ℝ) (w : Which) (f : Form) (a b : Nat)
       split; · rfl
       by_cases hkb : (qty s b).kind = .repeated
       · have hi : infer (qty s a) (qty s b) w = none := by
-          unfold infer
+          rw [infer_unfold]
           rcases h with h | h | h | h | h
           · exact absurd hka h
           · exact absurd hkb h
@@ -786,10 +787,10 @@ theorem C04_inferred_never_rejected (s : State ℝ) (w : Which) (f : Form) (a b 
     (step s (.set w f a b none)).2 = .ok := by
   have hB : 0 < (qty s a).std * (qty s b).std := mul_pos sa sb
   have hmeas : (setMeasured s w a b (infer (qty s a) (qty s b) w)).2 = .ok := by
-    unfold setMeasured
+    rw [setMeasured_unfold]
     simp only [ka, kb, Kind.isEV, Kind.measured, Bool.not_true, Bool.false_eq_true, if_false,
       num_isZero, ne_of_gt sa, ne_of_gt sb, decide_false, Bool.or_false]
-    unfold infer
+    rw [infer_unfold]
     simp only [hl, pa, pb, bne_self_eq_false, Bool.not_true, Bool.or_false, Bool.false_eq_true,
       if_false, num_mul, num_neg, num_div]
     cases w with
@@ -845,7 +846,7 @@ theorem C04_inferred_is_sample_cov (qa qb : Qty ℝ) (hl : qa.raw.length = qb.ra
     infer qa qb .corr = some (Stats.corr qa.raw qb.raw) := by
   obtain ⟨_, h2, h3⟩ := C10_inferred_accepted qa.raw qb.raw hl
   have e1 : (Corr.one : ℝ) = 1 := by unfold Corr.one; simp
-  unfold infer
+  simp only [infer_unfold]
   simp only [hl, pa, pb, bne_self_eq_false, Bool.not_true, Bool.or_false, Bool.false_eq_true,
     if_false, num_mul, num_neg, num_div, ha, hb, e1]
   refine ⟨by rw [h2], ?_⟩
@@ -867,7 +868,7 @@ example : (step (⟨exQs, []⟩ : State ℝ) (.set .corr .fn 0 1 (some (9 / 10))
     · rfl
     · exact absurd ((outOfRange_iff _).1 hc) this
   show (setFn _ _ _ _ _).2 = _
-  unfold setFn setMeth setMeasured qty exQs
+  unfold setFn setMeth; rw [setMeasured_unfold]; unfold qty exQs
   simp [Kind.isEV, Kind.measured, h]
 
 example : (step (⟨exQs, []⟩ : State ℝ) (.set .corr .fn 0 1 (some (3 / 2)))).2 = .reject :=
